@@ -11,6 +11,7 @@ from vf.core import Fails, Target, attempt, bx, hx, raised
 from vf.env.cli import FAKE_SIG, FAKE_TX, accepted_options, run_cli
 from vf.ref import base58 as b58ref
 from vf.ref import conv
+from vf.ref import ec
 
 PROPERTY = "C20"
 LEVEL = "exploration"
@@ -345,6 +346,54 @@ NET_SCEN = {
 RPC_STUB = {"rpc": "rpc_method", "send": "send_tx", "mine": "mine_block"}
 
 
+# Further ways to run a subcommand in which another branch of main() consults the option (variant 0 is the table above).
+def _m_base58check(res, data):
+    return res.ok and _b58c(res.stdout) == data and len(data) > 0
+
+
+def _m_pub_of_priv(res, data):
+    if not (res.ok and len(data) == 32 and 0 < int.from_bytes(data, "big") < ec.N):
+        return False
+    x, y = ec.mul(int.from_bytes(data, "big"), ec.G)
+    return _strip_nl(res.stdout).lower() == (bytes([2 + (y & 1)]) + x.to_bytes(32, "big")).hex().encode()
+
+
+def _m_sigverify(res, data):
+    calls = res.calls.get("sig_verify")
+    return bool(calls) and len(calls[0][0]) >= 2 and calls[0][0][1] == data
+
+
+def _m_bech32_v1(res, data):
+    s = _strip_nl(res.stdout)
+    if not res.ok or b"1" not in s:
+        return False
+    i = s.rindex(b"1")
+    return s[i + 1 : i + 2] == b"p" and _bech32_data(s[: i + 1] + s[i + 2 :]) == data
+
+
+B58CHECK_ABC = b58ref.check_encode(b"abc")
+IN_VARIANTS = {
+    "base58": [("--check", ["base58", "--check"], H20, _m_base58check)],
+    "pubkey": [("private-key-input", ["pubkey", "-X", "-0x"], KEY32, _m_pub_of_priv)],
+    "sig": [("--verify", ["sig", "--verify", "--signature", "3006020101020101", "aabb"], G33, _m_sigverify)],
+    "bech32": [("--witness-version", ["bech32", "--hrp", "xx", "--witness-version", "1"], H20, _m_bech32_v1)],
+}
+OUT_VARIANTS = {
+    "mnemonic": [("--to-seed", ["mnemonic", "--to-seed"], MNEMONIC + b"\n", 64, 64)],
+    "base58": [("--decode --check", ["base58", "--decode", "--check"], B58CHECK_ABC, 3, 3)],
+    "pubkey": [("private-key-input", ["pubkey", "-X"], HEXH(KEY32), 33, 33)],
+}
+NET_VARIANTS = {
+    "addr": [("base58-address", ["addr"], HEXH(H20))],
+}
+
+
+def variants(sub, opt):
+    """labels of the ways (sub, opt) is exercised; index 0 (None) is the main scenario"""
+    tab = {_I: IN_VARIANTS, _O: OUT_VARIANTS, _N: NET_VARIANTS}.get(opt, {})
+    return [None] + [v[0] for v in tab.get(sub, [])]
+
+
 def _coarse_net(v):
     return "mainnet" if v == "mainnet" else "testnet|regtest"
 
@@ -352,10 +401,24 @@ def _coarse_net(v):
 class Scenario:
     """How to run `sub` so that the effective value of `opt` shows, and how to read it off the result."""
 
-    def __init__(self, sub, opt):
-        self.sub, self.opt = sub, opt
+    def __init__(self, sub, opt, variant=None):
+        self.sub, self.opt, self.variant = sub, opt, variant
         self.kind = None
         self.cls = lambda v: v
+        if variant is not None:
+            tab = {_I: IN_VARIANTS, _O: OUT_VARIANTS, _N: NET_VARIANTS}[opt]
+            row = next(v for v in tab[sub] if v[0] == variant)
+            if opt == _I:
+                self.kind = "stdin-reading"
+                _, self.argv, self.payload, self.match = row
+            elif opt == _O:
+                self.kind = "output-shape"
+                _, self.argv, self._stdin, self.lo, self.hi = row
+            else:
+                self.kind = "network-encoding"
+                _, self.argv, self._stdin = row
+                self.cls = _coarse_net
+            return
         if (sub, opt) in CONFIG_ATTR_ONLY:
             self.kind = "config-attr"
             self.argv, self._stdin = RUNNABLE[sub]
@@ -404,6 +467,11 @@ class Scenario:
                 return MAGIC.get(res.magic, "unrecognised")
             if not res.ok:
                 return "no-output"
+            if sub == "addr" and self.variant == "base58-address":
+                d = _b58c(res.stdout)
+                if d is None:
+                    return "unrecognised"
+                return {0x00: "mainnet", 0x6F: "testnet|regtest"}.get(d[0], "unrecognised")
             if sub == "addr":
                 return HRP.get(res.stdout.split(b"1")[0], "unrecognised")
             if sub == "wif":
@@ -537,11 +605,14 @@ def layer_classes(case, exp, layer):
 def check_precedence(case):
     sub, opt = case["sub"], case["opt"]
     f = Fails()
-    scen = Scenario(sub, opt)
+    scen = Scenario(sub, opt, case.get("variant"))
     exp, layer = conv.effective(DEFAULT[opt], case["cli"], _layer(case["toml"]), _layer(case["json"]), TOML_OK)
     cls = layer_classes(case, exp, layer)
     cls.append("obs:" + scen.kind)
     name = sub or "base"
+    if case.get("variant"):
+        name += "[" + case["variant"] + "]"
+        cls.append("nt:variant/" + name)
     argv = list(scen.argv)
     if case["cli"] is not None:
         argv += cli_flags(opt, case["cli"], case["form"])
@@ -636,7 +707,7 @@ FILE_STATES = ("no-file", "no-key", "v")
 
 
 def enumerate_precedence(tier):
-    for sub, opt, on_cli in _pairs():
+    for sub, opt, on_cli, variant in [(s_, o_, c_, v_) for s_, o_, c_ in _pairs() for v_ in variants(s_, o_)]:
         cands = candidates(sub, opt)
         n_cli = 0
         for given in (False, True) if on_cli else (False,):
@@ -654,6 +725,7 @@ def enumerate_precedence(tier):
                         yield {
                             "sub": sub,
                             "opt": opt,
+                            **({"variant": variant} if variant else {}),
                             "cli": a.get("cli"),
                             "form": form,
                             "json": None if js == "no-file" else (["v", a["json"]] if js == "v" else ["no-key"]),
@@ -905,6 +977,8 @@ def targets(tier):
             enumerate_=enumerate_precedence,
             exhaustive=True,
             required=[
+                "nt:variant/base58[--check]", "nt:variant/base58[--decode --check]", "nt:variant/mnemonic[--to-seed]", "nt:variant/sig[--verify]",
+                "nt:variant/pubkey[private-key-input]", "nt:variant/bech32[--witness-version]", "nt:variant/addr[base58-address]",
                 "nt:cli-over-file",
                 "nt:cli-over-default",
                 "nt:explicit-default-value-over-file",
